@@ -65,7 +65,8 @@ Print Assumptions sync_never_stuck.
    and a concrete asynchronous schedule makes node 1 run on_new_cycle with both payloads *)
 Definition ex_graph : list (node * list node) := [(0, [1]); (1, [0; 2]); (2, [1])]%Z.
 Definition ex_plan : plan_t :=
-  [(0, [([(1, 7)], [])]); (1, [([(0, 5); (2, 6)], []); ([], [(2, 9)])]); (2, [([(1, 8)], [])])]%Z.
+  [(0, [([(1, 7, -1)], [])]); (1, [([(0, 5, -1); (2, 6, -1)], []); ([], [(2, 9, 0)])]);
+   (2, [([(1, 8, -1)], [])])]%Z.
 
 Ltac case_eqb a :=
   repeat match goal with
@@ -86,7 +87,8 @@ Example c08_algo_ok : algo_ok (nbrs_of ex_graph) (table_algo ex_plan).
 Proof.
   unfold algo_ok, targets_ok, table_algo, plan_at, nbrs_of, ex_graph, ex_plan, zlookup; simpl. split.
   - intros n _. case_eqb n; (split; [nodup_list | intros y Hy; simpl in *; intuition]).
-  - intros n _ k _. case_eqb n; destruct k as [|[|k]]; simpl;
+  - intros n _ k msgs. case_eqb n; destruct k as [|[|k]]; simpl; unfold resolve; simpl;
+      try (destruct (zlookup 0 msgs)); simpl;
       (split; [nodup_list | intros y Hy; simpl in *; intuition]).
 Qed.
 
